@@ -8,7 +8,8 @@ from harness import nswire
 from harness.common import MachineryError, corpus_cases, lean_int, lean_list, lean_str, wl
 
 PID = 'C10'
-MODULES = ['NoteSeqVerif.Props.C10', 'NoteSeqVerif.Props.C10Events', 'NoteSeqVerif.Props.C10Heap', 'NoteSeqVerif.Props.C10World']
+MODULES = ['NoteSeqVerif.Props.C10', 'NoteSeqVerif.Props.C10Events', 'NoteSeqVerif.Props.C10Heap', 'NoteSeqVerif.Props.C10World',
+           'NoteSeqVerif.Props.C10_compose']
 EXE = 'drv_c10'
 THEOREMS = [
     ('NoteSeqVerif.Props.C10', 'NSV.C10.' + t) for t in [
@@ -61,6 +62,11 @@ class _Tr(FnTranslator):
                 self.cond(s.test, local), self.block(s.body + rest, local, indent + 1), pad,
                 self.block(s.orelse + rest, local, indent + 1))
         return super().block(stmts, local, indent)
+
+
+# Props/C10_compose.lean: transposing the RESULT of a transposition (first step deleting nothing) = one step by the sum
+THEOREMS = THEOREMS + [('NoteSeqVerif.Props.C10_compose', 'NSV.C10.' + t) for t in (
+    'transpose_ns_compose', 'keepNote_moveNote', 'moveNote_moveNote', 'transposeKey_transposeKey')]
 
 
 def _pairs(items):
@@ -1512,6 +1518,37 @@ def run(chk):
             chk.count('oracle', None)
             if r:
                 _fail(chk, r, replay)
+        # operation sequences (transpose_ns_compose): when the first step deletes nothing, transposing its RESULT by k2 is
+        # one transposition by k + k2 - sequence (byte for byte, transpose_chords=False) and deleted count; each real step
+        # is also compared with the model, and the intermediate result must not change while it is transposed again
+        if i % 2 == 0:
+            try:
+                mid, d1, _ = call_tns(sl, ns, k, mn, mx, False)
+            except Exception:  # pylint: disable=broad-except
+                mid, d1 = None, None
+            if mid is not None and d1 == 0:
+                k2 = gen_k(rng)
+                mid_before = _ser(mid)
+                B.add('transpose_twice', tns_request(csl, mid, k2, mn, mx, False), tns_impl(sl, mid, k2, mn, mx, False),
+                      'second step', sorted(set(hist) | {'compose:second-step'}),
+                      replay={'kind': 'tns', 'k': k2, 'min': mn, 'max': mx, 'transpose_chords': False, 'sequence': nswire.encode(mid)})
+                r = None
+                try:
+                    two, d2, _ = call_tns(sl, mid, k2, mn, mx, False)
+                    one, d, _ = call_tns(sl, ns, k + k2, mn, mx, False)
+                    if _ser(mid) != mid_before:
+                        r = 'the result of the first transposition was modified when it was transposed again'
+                    elif _ser(ns) != before:
+                        r = 'the original sequence changed during the second transposition'
+                    elif (d2, _ser(two)) != (d, _ser(one)):
+                        r = ('transposing by %d and then by %d (nothing deleted by the first step) differs from transposing by %d: '
+                             'deleted %d vs %d, notes %s vs %s' % (k, k2, k + k2, d2, d, [(n.pitch, n.is_drum) for n in two.notes][:8],
+                                                                  [(n.pitch, n.is_drum) for n in one.notes][:8]))
+                except Exception as e:  # pylint: disable=broad-except
+                    r = 'transposing the result of a transposition raised %s: %s' % (type(e).__name__, e)
+                chk.count('oracle', None)
+                if r:
+                    _fail(chk, r, {'kind': 'tns2', 'k': k, 'k2': k2, 'min': mn, 'max': mx, 'sequence': nswire.encode(ns)})
     B.flush()
 
     # ---- (3) melodies
@@ -1717,6 +1754,15 @@ def oracle_obj(obj, verbose=False):
         v = (obj.get('defaults', False), obj.get('in_place', False))
         say('  (default range: %s, in_place: %s) ->' % v, tns_impl(sl, ns, obj['k'], obj['min'], obj['max'], obj['transpose_chords'], *v)[:400])
         rs = [oracle_tns(sl, csl, ns, obj['k'], obj['min'], obj['max'], obj['transpose_chords'], *v)]
+    elif kind == 'tns2':
+        ns = nswire.decode(obj['sequence'])
+        mid, d1, _ = call_tns(sl, ns, obj['k'], obj['min'], obj['max'], False)
+        two, d2, _ = call_tns(sl, mid, obj['k2'], obj['min'], obj['max'], False)
+        one, d, _ = call_tns(sl, ns, obj['k'] + obj['k2'], obj['min'], obj['max'], False)
+        say('  two steps: deleted %d then %d, pitches %s; one step: deleted %d, pitches %s' % (
+            d1, d2, [n.pitch for n in two.notes][:12], d, [n.pitch for n in one.notes][:12]))
+        rs = ['transposing by %d then %d differs from transposing by %d' % (obj['k'], obj['k2'], obj['k'] + obj['k2'])
+              if d1 == 0 and (d2, _ser(two)) != (d, _ser(one)) else None]
     elif kind == 'mel':
         d = obj.get('defaults', False)
         rs = [oracle_mel(ml, obj['events'], obj['k'], obj['min'], obj['max'], d)]
